@@ -211,6 +211,11 @@ def parseXProcs (lines : Array String) : List XProc := Id.run do
                            pinDir := (kvOf rest "dir").getD "" }
         cur := some { p with nodes := p.nodes.insert n.id n }
     | "xorder" :: ids => if let some p := cur then cur := some { p with order := ids.filterMap String.toNat? }
+    | "xregclk" :: id :: rest =>
+      if let some p := cur then
+        let trig : Trigger := match kvOf rest "trig" with | some "F" => .falling | some "B" => .both | _ => .rising
+        let kind : ResetKind := match kvOf rest "rtype" with | some "sync" => .sync | some "async" => .async | _ => .none
+        cur := some { p with regClks := p.regClks ++ [(id.toNat!, trig, kind, (kvOf rest "high") == some "1", (kvOf rest "hasrv") == some "1")] }
     | ["xresetval", r, c] => if let some p := cur then cur := some { p with resetVals := p.resetVals ++ [(r.toNat!, c.toNat!)] }
     | "xregcfg" :: rest =>
       if let some p := cur then
@@ -242,6 +247,11 @@ def compareExporterModel (design : DesignFile) (xs : List XProc) (st : Stats) : 
         match regProcessFromDump p with
         | .error e => st := st.bump ("k:reg_unmodelled:" ++ (e.take 40).toString)
         | .ok (cfg, model) =>
+          match regConfigsAgree p with
+          | .error e =>
+            st := st.bump "k:reg_config_differs"
+            if firstBad.isNone then firstBad := some s!"{p.entity}.{p.name}: {e}"
+          | .ok () => st := st.bump "k:reg_config_from_clock_equal"
           let sensOk := sens == some ((regProcessSens cfg).map String.toLower)
           if stmtsText model == stmtsText body && sensOk then st := st.bump "k:reg_process_equal"
           else
